@@ -25,11 +25,14 @@ THEOREMS = ["C08_no_stutter", "C08_no_stutter_iter", "C08_zero_time_bounded", "C
 CFGS = [(3600, 7200, 600, 0), (1, 600, 1, 2), (30, 7200, 7200, 3), (86400, 172800, 600, 1), (3600, 600, 1, 0)]
 
 
-def bound(cfg):
-    """Virtual-time bound of the recovery once the cache answers correctly again (theorem C08_converge_partial):
-    one refresh wait, one retry sleep and the two 60 s transport timeouts."""
+def bound(cfg, downgrade_ahead=False):
+    """Virtual-time bound of the recovery once the cache answers correctly again.  Client and cache at the same protocol version
+    (the hypothesis `version (sk w) = c_ver c` of theorem C08_converge): one refresh wait, one retry sleep and the two 60 s transport
+    timeouts.  Client still at a higher version than the cache when the last fault is over: the cache's (correct) answer in its own
+    version is refused once - Error Report, ERROR_FATAL, one more retry sleep - before the reconnect on which the first PDU lowers
+    the version (C13): one more retry interval and exchange.  Both are "refresh, expire and a small multiple of retry" (C08's text)."""
     refresh, expire, retry, mode = cfg
-    return refresh + retry + 2 * 60
+    return refresh + retry + 2 * 60 + ((retry + 60) if downgrade_ahead else 0)
 
 
 def build(seed, faults, cfg_i=None, ver=None):
@@ -182,13 +185,21 @@ def oracle(tr, script, meta, stats=None):
         if t1 is None and not (ann and idx0 == 0):
             # already established with the right data when the last fault was consumed and never left
             t1 = t0
-        b = bound(cfg)
+        # the version the client speaks when the last fault is over: the version byte of the last PDU it sent up to then
+        cver = None
+        for a in ann[:idx0 + 1]:
+            w = a["line"].split()
+            if w[0] == "SEND" and len(w) > 1 and len(w[1]) >= 2:
+                cver = int(w[1][:2], 16)
+        cache_ver = (meta.get("cache_final") or {}).get("ver")
+        ahead = cver is not None and cache_ver is not None and cver > cache_ver
+        b = bound(cfg, downgrade_ahead=ahead)
         if t1 is not None:
             meta["recovery_ratio"] = (t1 - t0) / float(b)
         if stats is not None and t1 is not None:
             stats["max_recovery_over_bound"] = max(stats["max_recovery_over_bound"], (t1 - t0) / float(b))
         if t1 is not None and t1 - t0 > b:
-            return {"key": "too-slow", "what": "recovery took %d s of protocol time after the last fault, bound %d (refresh %d + retry %d + 120)" % (t1 - t0, b, cfg[0], cfg[2]),
+            return {"key": "too-slow", "what": "recovery took %d s of protocol time after the last fault, bound %d (refresh %d + retry %d + 120%s)" % (t1 - t0, b, cfg[0], cfg[2], ", + retry + 60: version downgrade still ahead" if ahead else ""),
                     "t0": t0, "t1": t1}
     return None
 
